@@ -23,6 +23,7 @@ import (
 	"time"
 
 	"github.com/google/mtail/internal/runtime/code"
+	gen01 "github.com/google/mtail/internal/zzverif/gen"
 	"github.com/google/mtail/internal/zzverif/vlib"
 )
 
@@ -130,7 +131,7 @@ func main() {
 	out := vlib.NewOut(a, "From V Require Import Corr.Run_C04.", "case", 40)
 	rng := vlib.NewRand(a.Seed)
 
-	nGen, nFlag, nMut, nLines := 140, 6, 60, 14
+	nGen, nFlag, nMut, nLines := 100, 6, 40, 14
 	if a.Thorough() {
 		nGen, nFlag, nMut, nLines = 600, 20, 300, 24
 	}
@@ -197,6 +198,38 @@ func main() {
 			out.Count("compile-error/" + p.stream)
 		}
 	}
+	// 6. the checker tie (Lang/Elab.v): parsed tree -> elab -> codegen = real object code.
+	// Own cases after all the others (own shards); programs of the typed generator
+	// of harness/gen (decorators off) are added to the streams above.
+	wants := map[string]string{"gen": "WantClean", "gen01": "WantClean", "flag:settime-len": "(WantWarn WSettime)",
+		"flag:mixed-assign": "(WantWarn WMixed)", "flag:float-cond": "(WantWarn WCond)", "flag:not-bool": "(WantWarn WNeg)"}
+	nG := 80
+	if a.Thorough() {
+		nG = 600
+	}
+	cfg := gen01.DefaultConfig()
+	cfg.NoDecorators = true
+	for i := 0; i < nG; i++ {
+		gp := gen01.Generate(rng.Fork(), cfg)
+		progs = append(progs, prog{stream: "gen01", name: fmt.Sprintf("gen01_%d", i), src: gp.Source()})
+	}
+	nElab := 0
+	for _, p := range progs {
+		if p.asm != nil {
+			continue
+		}
+		w, ok := wants[p.stream]
+		if !ok {
+			w = "WantAny"
+		}
+		if why := elabCase(out, p, w); why != "" {
+			out.Count("elab-skip/" + why)
+		} else {
+			nElab++
+			out.Count("elab/" + p.stream)
+		}
+	}
+	out.Extra["elab_cases"] = nElab
 	for _, n := range opNames {
 		if _, ok := opExec[n]; !ok {
 			opExec[n] = 0
